@@ -26,7 +26,8 @@ if level == "model_checking":
     cov["transitions"] = max(1, tot("transitions"))
     cov["traces_validated_against_impl"] = tot("traces_validated_against_impl")
 else:
-    cov["evaluations"] = max(1, tot("evaluations"))
+    # a loom part counts complete schedules as states: each is one evaluation of the oracle
+    cov["evaluations"] = max(1, tot("evaluations") + tot("schedules"))
     cov["distinct_nontrivial"] = max(2, tot("distinct_nontrivial"))
     cov["rule"] = " || ".join(f"[{p}] " + d["coverage"].get("rule", "") for p, d in docs)
 cov["samples"] = samples
